@@ -683,6 +683,18 @@ def closed_form_dist(o1, o2):
   return None
 
 
+def minsize(mjm, g):
+  """Smallest half-extent of a geom (radius for capsules); penetrations deeper than half of it are treated as
+  ill-posed for convex-solver comparisons."""
+  t = int(mjm.geom_type[g])
+  if t in (0, 1):
+    return 1.0
+  if t == 7:
+    return 0.1
+  n = {2: 1, 3: 1, 5: 2, 4: 3, 6: 3}[t]
+  return float(np.min(mjm.geom_size[g][:n]))
+
+
 def frame_defect(fr):
   """max |F F^T - I| and det for a 3x3 frame given as 9 numbers (rows = normal, tangent1, tangent2)."""
   F = np.asarray(fr, dtype=np.float64).reshape(3, 3)
